@@ -29,7 +29,7 @@ structure Verb where
   prec : Nat := 0
   hasWidth : Bool := false
   width : Nat := 0
-  deriving Repr, Inhabited
+  deriving Repr, Inhabited, DecidableEq
 
 def isDigit (c : Char) : Bool := '0' ≤ c && c ≤ '9'
 def isLetter (c : Char) : Bool := ('a' ≤ c && c ≤ 'z') || ('A' ≤ c && c ≤ 'Z')
@@ -95,18 +95,18 @@ def stripIndex (raw : List Char) : List Char :=
   else raw
 
 /-- `formatPadWidth` -/
-def padWidth (L : Lib) (v : Verb) (fmted : String) : String :=
+def padWidth (clusters : String → List String) (v : Verb) (fmted : String) : String :=
   if !v.hasWidth then fmted
   else
-    let given := (L.clusters fmted).length
+    let given := (clusters fmted).length
     if given ≥ v.width then fmted
     else
       let pads := String.ofList (List.replicate (v.width - given) (if v.zero then '0' else ' '))
       if v.minus then fmted ++ pads else pads ++ fmted
 
 /-- the precision loop of `formatAppendString`: at most `prec` clusters (only when `prec > 0`) -/
-def precCut (L : Lib) (v : Verb) (str : String) : String :=
-  if v.hasPrec && v.prec > 0 then String.join ((L.clusters str).take v.prec) else str
+def precCut (clusters : String → List String) (v : Verb) (str : String) : String :=
+  if v.hasPrec && v.prec > 0 then String.join ((clusters str).take v.prec) else str
 
 /-- `formatAppend`: the text to append -/
 def formatAppend (L : Lib) (v : Verb) (args : List Value) : Res String :=
@@ -119,10 +119,10 @@ def formatAppend (L : Lib) (v : Verb) (args : List Value) : Res String :=
       match v.mode with
       | 'v' =>
         match a.ty, a.v with
-        | _, .null => .ok (padWidth L v "null")
-        | .string, .s s => if !v.sharp then .ok (padWidth L v s) else .ok (padWidth L v (L.jsonStr s))
-        | .number, .n x => if !v.sharp then .ok (padWidth L v (L.textG x)) else .unmodelled
-        | .bool, .b b => .ok (padWidth L v (if b then "true" else "false"))
+        | _, .null => .ok (padWidth L.clusters v "null")
+        | .string, .s s => if !v.sharp then .ok (padWidth L.clusters v s) else .ok (padWidth L.clusters v (L.jsonStr s))
+        | .number, .n x => if !v.sharp then .ok (padWidth L.clusters v (L.textG x)) else .unmodelled
+        | .bool, .b b => .ok (padWidth L.clusters v (if b then "true" else "false"))
         | _, _ => .unmodelled
       | 't' =>
         match a.ty, a.v with
@@ -143,11 +143,11 @@ def formatAppend (L : Lib) (v : Verb) (args : List Value) : Res String :=
         | _, _ => .unmodelled
       | 's' =>
         match a.ty, a.v with
-        | .string, .s s => .ok (padWidth L v (precCut L v s))
+        | .string, .s s => .ok (padWidth L.clusters v (precCut L.clusters v s))
         | _, _ => .unmodelled
       | 'q' =>
         match a.ty, a.v with
-        | .string, .s s => .ok (padWidth L v (L.jsonStr (L.nfc (precCut L v s))))
+        | .string, .s s => .ok (padWidth L.clusters v (L.jsonStr (L.nfc (precCut L.clusters v s))))
         | _, _ => .unmodelled
       | _ => .err "unsupported format verb"
 
